@@ -154,3 +154,16 @@ Example c23_loadstore_nonvacuous :
   mem_load [1; 255; 3]%Z 1 true 32 1 0 = Some 4294967295%Z /\
   mem_store [1; 2; 3; 4; 5]%Z 2 1 0 (rep W32 (-2)) = Some [1; 254; 255; 4; 5]%Z.
 Proof. vm_compute. repeat split; auto 30. Qed.
+
+(* ---- unary operators: every NEG row of the compiler (i8 i16 i32 i64 ptr; INV and unsigned NEG
+   are rejected) leaves the canonical representation of IRSem's negation, MIN included; without the
+   re-wrapping the i8 row is wrong (-(-128) = 128) *)
+From PV Require Import Model.Ir2WasmUnop Proofs.C23_unop Proofs.C23_table4.
+Theorem c23_unop_table_exact : forall c : IRSem.cfg, ptr_bytes c = 4%Z ->
+  forall r, In r untable -> unop_row c r.
+Proof. exact unop_table_exact. Qed.
+Print Assumptions c23_unop_table_exact.
+
+Theorem c23_unop_unwrapped_refuted : forall c : IRSem.cfg, ~ unop_row c (I8, W32, PNone).
+Proof. exact neg_i8_unwrapped_wrong. Qed.
+Print Assumptions c23_unop_unwrapped_refuted.
